@@ -1912,7 +1912,7 @@ impl Property for C14 {
         ctx.subspace("shapes with 3 allocations x every single weak edge (incl. dangling / wrapped root) x 4 kinds x all positions", total, true);
 
         // --- random graphs, sharing probability swept ---------------------------------------------
-        let n = ctx.tier.pick(1_000, 20_000);
+        let n = ctx.tier.pick(800, 20_000);
         let mut stream = 1;
         for &p in &[0.0, 0.1, 0.25, 0.5, 0.75, 1.0] {
             for kind in [Kind::RcDag, Kind::ArcDag] {
